@@ -6,6 +6,7 @@ package proggen
 import (
 	"fmt"
 	"sort"
+	"strconv"
 	"strings"
 
 	"verif/harness/engine"
@@ -251,6 +252,7 @@ type Site struct {
 	Type     *TypeDecl
 	Ref      *TypeRef // mention of Type at this site, if any
 	Field    *Field
+	Field2   *Field // second field (imm.tuple2)
 	Opnd     *Var
 	Fn       *FuncDecl
 	Aux      string // kind-specific
@@ -262,6 +264,15 @@ type Site struct {
 }
 
 func (s *Site) stmtNode() *Node { return &s.Node }
+
+// OneLiner is several simple sites written on one source line inside
+// `if true { a; b }` with inline /* sN */ tags (gofmt splits it into lines).
+type OneLiner struct {
+	Node
+	Sites []*Site
+}
+
+func (o *OneLiner) stmtNode() *Node { return &o.Node }
 
 // Filler is an untagged harmless line (e.g. `_ = x`).
 type Filler struct {
@@ -359,6 +370,12 @@ func walkStmts(ctx Ctx, body []Stmt, fn func(SiteInfo)) {
 		switch s := s.(type) {
 		case *Site:
 			fn(SiteInfo{Site: s, Ctx: ctx})
+		case *OneLiner:
+			c2 := ctx
+			c2.Wraps = append(append([]WrapKind{}, ctx.Wraps...), WIf)
+			for _, x := range s.Sites {
+				fn(SiteInfo{Site: x, Ctx: c2})
+			}
 		case *Wrap:
 			c2 := ctx
 			c2.Wraps = append(append([]WrapKind{}, ctx.Wraps...), s.Kind)
@@ -496,6 +513,12 @@ func (p *Prog) Nodes() []NodeRef {
 		switch s := s.(type) {
 		case *Site:
 			return []int{s.ID}
+		case *OneLiner:
+			var ids []int
+			for _, x := range s.Sites {
+				ids = append(ids, x.ID)
+			}
+			return ids
 		case *Wrap:
 			var ids []int
 			for _, pv := range s.Params {
@@ -552,8 +575,9 @@ func (p *Prog) TagLines() map[int]struct {
 	}{}
 	for _, pkg := range p.Pkgs {
 		for _, f := range pkg.Files {
-			for i := range f.Lines {
-				if id := TagAt(f.Lines, i+1); id != 0 {
+			for i, l := range f.Lines {
+				for _, m := range tagRe.FindAllStringSubmatch(l, -1) {
+					id, _ := strconv.Atoi(m[1])
 					out[id] = struct {
 						File string
 						Line int
